@@ -81,7 +81,7 @@ const TYPED: &[u8] = b"ABCDEFHIJLMNQSTUVWXYZ";
 const PASTED: [char; 3] = ['é', '宽', '🤩'];
 
 fn typed_char(c: char) -> bool {
-    (c.is_ascii() && TYPED.contains(&(c as u8))) || PASTED.contains(&c)
+    (c.is_ascii() && TYPED.contains(&(c as u8))) || PASTED.contains(&c) || c == '\x1b'
 }
 
 #[derive(Clone, Debug, PartialEq, Eq)]
@@ -219,6 +219,10 @@ struct Kernel {
     mangled_replies: u64,
     quit_raised: u64,
     read_retries: u32,
+    /// the user has pressed the escape key and nothing after it
+    lone_escape: bool,
+    /// the application has used `Terminal::drain` (an iterator of events: it cannot report errors)
+    drain_used: bool,
     /// characters the user has typed so far (at delivery into the tty input queue)
     typed: Vec<char>,
     /// events that ran while the app was inside poll
@@ -997,8 +1001,21 @@ fn run(ctx: &Ctx, src: &mut Src) -> WorldResult {
         k.src.steps += steps;
         std::mem::swap(src, &mut k.src);
     }
+    let (lone_escape, drain_used) = {
+        let k = kernel.borrow();
+        (k.lone_escape, k.drain_used)
+    };
     match result {
-        Ok(r) => r,
+        // whatever goes wrong after a lone escape key is filed under it
+        Ok(r) => r.map_err(|mut v| {
+            if lone_escape {
+                v.signature.push_str("+lone-escape");
+            }
+            if drain_used && v.signature.starts_with("termination-signal-not-reported") {
+                v.signature.push_str("+app-uses-drain");
+            }
+            v
+        }),
         Err(payload) => resume_unwind(payload),
     }
 }
@@ -1079,6 +1096,8 @@ fn new_kernel(mut src: Src) -> Kernel {
         mangled_replies: 0,
         quit_raised: 0,
         read_retries: 0,
+        lone_escape: false,
+        drain_used: false,
         typed: Vec::new(),
         in_poll: false,
         events_in_poll: 0,
@@ -1149,6 +1168,62 @@ struct Epoch {
 }
 
 impl App {
+    /// bookkeeping for one event handed to the application (by poll or by drain)
+    fn note_event(&mut self, k: &K, event: &Option<TerminalEvent>) {
+                match event {
+                    Some(TerminalEvent::Key(key)) => {
+                        if let KeyName::Char(c) = key.name {
+                            if key.mode.is_empty() && typed_char(c) {
+                                self.keys.push(c);
+                            }
+                        } else if key.name == KeyName::Esc && key.mode.is_empty() {
+                            self.keys.push('\x1b');
+                        }
+                    }
+                    Some(TerminalEvent::Wake) => {
+                        self.wakes_seen += 1;
+                        self.last_wake_event_step = k.borrow().steps;
+                        if let Some(msg) = wake_order_check(&mut k.borrow_mut(), self.keys.len()) {
+                            self.overtaken.get_or_insert(msg);
+                        }
+                    }
+                    Some(TerminalEvent::Resize(size)) => {
+                        self.resizes_seen += 1;
+                        self.last_resize = Some(*size);
+                    }
+                    _ => {}
+                }
+    }
+
+    /// `Terminal::drain`: everything that polls with a zero timeout hand out, as an iterator
+    fn drain(&mut self) {
+        let k = self.k.clone();
+        {
+            let mut kk = k.borrow_mut();
+            kk.in_poll = true;
+            kk.poll_deadline = None;
+            kk.selects_past_deadline = 0;
+            kk.drain_used = true;
+        }
+        self.history.on_flush();
+        let term = self.term.as_mut().expect("terminal");
+        let res = guarded(|| term.drain().collect::<Vec<_>>());
+        k.borrow_mut().in_poll = false;
+        match res {
+            Err(()) => self.blocked = true,
+            Ok(events) => {
+                let count = events.len();
+                for event in events {
+                    self.note_event(&k, &Some(event));
+                }
+                let mut kk = k.borrow_mut();
+                let now = kk.now;
+                kk.src.log(|| format!("t={}us app: drain() -> {} events", now / US, count));
+                kk.src.sig(0xA900 + count.min(3) as u64);
+            }
+        }
+    }
+
     fn poll(&mut self, timeout: Option<Duration>) -> Polled {
         let k = self.k.clone();
         {
@@ -1172,27 +1247,7 @@ impl App {
                 Polled::Blocked
             }
             Ok(Ok(event)) => {
-                match &event {
-                    Some(TerminalEvent::Key(key)) => {
-                        if let KeyName::Char(c) = key.name {
-                            if key.mode.is_empty() && typed_char(c) {
-                                self.keys.push(c);
-                            }
-                        }
-                    }
-                    Some(TerminalEvent::Wake) => {
-                        self.wakes_seen += 1;
-                        self.last_wake_event_step = k.borrow().steps;
-                        if let Some(msg) = wake_order_check(&mut k.borrow_mut(), self.keys.len()) {
-                            self.overtaken.get_or_insert(msg);
-                        }
-                    }
-                    Some(TerminalEvent::Resize(size)) => {
-                        self.resizes_seen += 1;
-                        self.last_resize = Some(*size);
-                    }
-                    _ => {}
-                }
+                self.note_event(&k, &event);
                 Polled::Event(event)
             }
             Ok(Err(Error::Quit)) => {
@@ -1652,6 +1707,11 @@ fn session(ctx: &Ctx, kernel: &K) -> WorldResult {
                         }
                     }
                 };
+                if !ctx.avoids("app-uses-drain") && kernel.borrow_mut().src.chance(1, 10) {
+                    kernel.borrow_mut().src.probe("application-drains-events");
+                    app.drain();
+                    continue;
+                }
                 match app.poll(timeout) {
                     Polled::Event(Some(TerminalEvent::Wake)) => owed_wake = false,
                     Polled::Blocked => {}
@@ -1674,7 +1734,15 @@ fn session(ctx: &Ctx, kernel: &K) -> WorldResult {
                 // user types keys
                 let mut k = kernel.borrow_mut();
                 let mut bytes = Vec::new();
-                if k.src.chance(1, 8) {
+                if k.lone_escape {
+                    // the escape key was the last thing the user pressed in this session
+                } else if !ctx.avoids("lone-escape") && k.src.chance(1, 12) {
+                    // the escape key on its own: one byte that is also the first byte of
+                    // every report and function key
+                    bytes.push(0x1b);
+                    k.lone_escape = true;
+                    k.src.fault("escape-key-with-nothing-after-it");
+                } else if k.src.chance(1, 8) {
                     // pasted text: longer than the 1024-byte read buffer of poll, with
                     // multi-byte characters, so that reads end inside characters
                     let n = 300 + k.src.draw(1200) as usize;
@@ -1698,7 +1766,9 @@ fn session(ctx: &Ctx, kernel: &K) -> WorldResult {
                     }
                 }
                 let delay = k.src.draw(3000) as u64 * US;
-                k.schedule(delay, Ev::Input(bytes, "user"));
+                if !bytes.is_empty() {
+                    k.schedule(delay, Ev::Input(bytes, "user"));
+                }
             }
             10 => {
                 // another thread wakes the terminal
